@@ -1,6 +1,7 @@
 import Driver.Common
 import GM.Spec.CMGen
 import GM.Spec.CMEnum
+import GM.Spec.CMEmph
 namespace Driver
 open GM GM.Spec.CM
 
@@ -35,7 +36,7 @@ end CMSpec
 
 /-- `cmspec gen <seed> <size>` → `<hex spell> <hex expected>`; `cmspec enum <i>` → the i-th document of the
     exhaustive small scope (`skip` if that combination is not wellFormed, `end` past the last index);
-    `cmspec count` → size of the enumerated index space; `cmspec alts gen|enum …` → `tag:<hex spell>` respellings -/
+    `cmspec count` → size of the enumerated index space; `cmspec emph|emphi <hex>` → emphasis reference; `cmspec alts gen|enum …` → `tag:<hex spell>` respellings -/
 def handleCMSpec : List String → String
   | ["gen", s, z] => nat s fun seed => nat z fun size => CMSpec.cmsAnswer (gen seed size)
   | ["enum", i] => nat i fun i =>
@@ -48,6 +49,16 @@ def handleCMSpec : List String → String
       | none => "end"
       | some d => CMSpec.cmsAlts d
   | ["count"] => toString enumCount
+  -- spec-side emphasis reference (GM.Spec.CMEmph): `cmspec emph <hex source>` → `<hex prescribed HTML>` or `n-a`
+  -- (outside `emphOnly` / not a sequence of paragraphs); `cmspec emphi <hex inline content>` → HTML of the inline content
+  | ["emph", h] => hx h fun src =>
+      match GM.Spec.CMEmph.emphDoc GM.Spec.CMEmph.ucls0 src with
+      | some out => hexOfBytes out
+      | none => "n-a"
+  | ["emphi", h] => hx h fun src =>
+      if GM.Spec.CMEmph.emphOnly GM.Spec.CMEmph.ucls0 src && !src.contains 10 then
+        hexOfBytes (GM.Spec.CMEmph.emphInline GM.Spec.CMEmph.ucls0 src)
+      else "n-a"
   | ["wf", s, z] => nat s fun seed => nat z fun size => boolStr (wellFormed (genOnce seed size))
   | _ => bad
 
